@@ -615,6 +615,30 @@ struct ToctouWorld : World
         }
         if (!ok)
           c.violate("C09", cls("delivered_value_never_in_source"), "struct tag %ld", tag);
+        // pointer fields of the snapshot: null or inside the sandbox, and translated from a representation some version held
+        auto ptr_ok = [&](uintptr_t a, size_t field_off) {
+          if (a == 0) {
+            for (auto& v : versions) {
+              uint32_t rep;
+              memcpy(&rep, &v[offA + field_off], 4);
+              if (rep == 0)
+                return true;
+            }
+            return false;
+          }
+          if (!addr_in_region(a))
+            return false;
+          for (auto& v : versions) {
+            uint32_t rep;
+            memcpy(&rep, &v[offA + field_off], 4);
+            if (rep != 0 && base + (rep & (S - 1)) == a)
+              return true;
+          }
+          return false;
+        };
+        if (!c.stop && (!ptr_ok((uintptr_t)t->data.UNSAFE_unverified(), offsetof(GNode, data)) || !ptr_ok((uintptr_t)t->next.UNSAFE_unverified(), offsetof(GNode, next)) ||
+                        !ptr_ok((uintptr_t)t->ptrs[1].UNSAFE_unverified(), offsetof(GNode, ptrs) + 4)))
+          c.violate("C09", cls("delivered_pointer_field_never_in_source"), "a pointer field of the struct snapshot is outside the sandbox or was never designated by the source");
       } else if (variant == V_CV_FUND_VOL) {
         bool ok = false;
         for (auto& v : versions) {
